@@ -118,10 +118,10 @@ func inlineNewHelpers(p *Program, round int) (map[string][]byte, int, []string) 
 			il.run()
 			ils[f] = il
 		}
-		// a helper whose every use was inlined is dead: drop its declaration so that whole-program rules do not see a
-		// second copy of the statements (exported functions and methods that may satisfy interfaces stay)
+		// a new helper that is no longer referenced at all (every use was inlined in an earlier round) is dead: drop its
+		// declaration so that whole-program rules do not see a second copy of the statements
 		for _, ci := range cands {
-			if ci.refs > 0 && ci.refs == ci.inlined && !ci.obj.Exported() && ils[ci.file] != nil {
+			if ci.refs == 0 && !ci.obj.Exported() && ils[ci.file] != nil {
 				ils[ci.file].dropDecl(ci)
 			}
 		}
